@@ -10,14 +10,16 @@ The row invariant of `Lemmas/RenderDisplay.renderCells_display` is redone with a
 * the previous frame's row agrees with the terminal outside ITS image cells (`RelV` instead of
   `V = ls.map phi`): where `last` holds an image cell the terminal shows any cell of width 1.
 
-What is NOT covered (hypothesis `ImgNarrow`): an image cell that comes over the *head* of a wide glyph
-the terminal still shows.  The loop then leaves the glyph's head under the image and rewrites its
-other columns (F113 repair) — on the reference terminal that poisons the head, i.e. the finished
-part `P` of the row changes at a masked position, which this invariant (fixed `P`) cannot express.
-The F113 frames themselves are decide-checked instances (`Props/C01Sixel`).
+* an image cell that comes over the *head* of a wide glyph the terminal still shows ("stale" state,
+  `Stale`): the loop leaves the head under the image and rewrites the glyph's other columns (F113
+  repair: `dirty` reaches them) unless they are image cells too; on the reference terminal such a write
+  poisons the head, i.e. the finished part `P` changes — at positions that are under image cells
+  (`SameOut`: the finished part is only known outside the mask `mp`).  Row algebra for that write:
+  `Lemmas/RenderRowStale.writeRow_stale`.
 -/
 import VaxisModel.Lemmas.RenderDisplay
 import VaxisModel.Lemmas.RenderClip
+import VaxisModel.Lemmas.RenderRowStale
 import VaxisModel.Model.RenderSixel
 
 namespace VaxisModel.Lemmas.RenderImages
@@ -43,20 +45,6 @@ def RelV (cw : String → Nat) (caps : Caps) : List VCell → List Cell → Prop
   | [], [] => True
   | v :: vs, l :: ls => (v = phi cw caps l ∨ (l.sixel = true ∧ v.2 = 0 ∧ advance cw l = 0)) ∧ RelV cw caps vs ls
   | _, _ => False
-
-/-- No image cell of the new row sits on the head of a wide glyph of the terminal row
-    (`k` = cells still shadowed by a glyph of the terminal row, the parse state of `V`). -/
-def ImgNarrow : Nat → List VCell → List Cell → Prop
-  | _, [], _ => True
-  | _, _ :: _, [] => True
-  | k + 1, _ :: vs, _ :: ns => ImgNarrow k vs ns
-  | 0, v :: vs, n :: ns => (n.sixel = true → v.2 = 0) ∧ ImgNarrow v.2 vs ns
-
-theorem imgNarrow_next (k : Nat) (v : VCell) (vs : List VCell) (n : Cell) (ns : List Cell)
-    (h : ImgNarrow k (v :: vs) (n :: ns)) : ImgNarrow (nextL k v) vs ns := by
-  cases k with
-  | zero => exact h.2
-  | succ k => simpa [ImgNarrow, nextL] using h
 
 theorem relV_map_phi (cw : String → Nat) (caps : Caps) (ls : List Cell) : RelV cw caps (ls.map (phi cw caps)) ls := by
   induction ls with
@@ -126,60 +114,188 @@ theorem renderCellsS_equal_eq (cw : String → Nat) (caps : Caps) (refresh : Boo
   simp only [renderCellsS, h, Bool.false_eq_true, if_false]
   rw [if_pos hc]
 
+/-! ### One written cell, on any row -/
+
+/-- `Lemmas/RenderDisplay.cell_write` without the row description: the tokens of one changed cell
+    perform `writeRow` at the current column. -/
+theorem cell_write_gen (cw : String → Nat) (caps : Caps) (hsp : cw "20" = 1) (t : Term) (st : RSt) (row col : Nat)
+    (n : Cell) (r : List DCell)
+    (h : TInv caps t st row col) (hr : row < t.rows) (hcols : col + (advance cw n + 1) ≤ t.cols)
+    (hg : t.grid[row]? = some r)
+    (hw0 : 0 ≤ n.w) (hwok : WidthOk cw caps n) (o : List Tok) :
+    let t' := run cw t (cellToks cw caps st row col n)
+    t'.grid = t.grid.set row (writeRow r col (advance cw n + 1) (expectedCell cw caps n)) ∧
+    t'.rows = t.rows ∧ t'.cols = t.cols ∧
+    TInv caps t' { reposition := false, pen := n.style, out := o } row (col + 1 + advance cw n) := by
+  intro t'
+  have hc : col < t.cols := by omega
+  obtain ⟨hc1, g1, r1, c1⟩ := pre_run cw caps t st row col h hr hc
+  generalize hpre : (if st.reposition then
+        (if st.pen.link ≠ "" then [Tok.osc8 "" ""] else []) ++ [Tok.cup (row + 1) (col + 1)] else []) = pre at hc1 g1 r1 c1
+  generalize hpen : (if st.reposition ∧ st.pen.link ≠ "" then ({ st.pen with link := "", linkParams := "" } : Style) else st.pen) = pen at hc1
+  obtain ⟨hc2, g2, r2, c2⟩ := delta_run cw caps (run cw t pre) pen n.style row col hc1
+  have ht' : t' = putGlyph (run cw (run cw t pre) (penDelta caps pen n.style)) (shownG cw n) (advance cw n + 1) := by
+    simp only [t', cellToks, hpre, hpen, run_append]
+    simp only [run, List.foldl_cons, List.foldl_nil]
+    exact glyph_step cw caps n _ hsp hw0 hwok
+  generalize run cw (run cw t pre) (penDelta caps pen n.style) = t2 at hc2 g2 r2 c2 ht'
+  have hg2 : t2.grid[t2.row]? = some r := by rw [hc2.row, g2, g1]; exact hg
+  have hfit2 : t2.col + (advance cw n + 1) ≤ t2.cols := by rw [hc2.col, c2, c1]; omega
+  obtain ⟨p1, p2, p3, p4, p5, p6, p7, p8, p9⟩ := putGlyph_ok t2 (shownG cw n) (advance cw n + 1) _ (by omega) hc2.pw hfit2 hg2
+  rw [← ht'] at p1 p2 p3 p4 p5 p6 p7 p8 p9
+  refine ⟨?_, by rw [p8, r2, r1], by rw [p9, c2, c1], ⟨by rw [p1, hc2.bad], by rw [p5, hc2.pen], by rw [p6, hc2.link], by rw [p7, hc2.lp], ?_⟩⟩
+  · rw [p2, hc2.row, hc2.col, g2, g1, hc2.pen, hc2.lp, hc2.link, ← expectedCell_eq]
+  · intro _
+    refine ⟨by rw [p3, hc2.row], ?_⟩
+    intro hlt
+    rw [p9, c2, c1] at hlt
+    have := p4 (by rw [hc2.col, c2, c1]; omega)
+    rw [hc2.col] at this
+    exact ⟨by rw [this.1]; omega, this.2⟩
+
+/-! ### The finished part of the row, known outside the mask -/
+
+/-- `P'` is `P` except possibly at the positions flagged in `mp` (positions under image cells). -/
+def SameOut (mp : List Bool) (P P' : List DCell) : Prop :=
+  P'.length = P.length ∧ ∀ (i : Nat), mp[i]? ≠ some true → P'[i]? = P[i]?
+
+theorem SameOut.refl (mp : List Bool) (P : List DCell) : SameOut mp P P := ⟨rfl, fun _ _ => rfl⟩
+
+theorem SameOut.trans {mp : List Bool} {P P' P'' : List DCell} (h1 : SameOut mp P P') (h2 : SameOut mp P' P'') :
+    SameOut mp P P'' := ⟨h2.1.trans h1.1, fun i hi => (h2.2 i hi).trans (h1.2 i hi)⟩
+
+/-- Splitting off the last position. -/
+theorem SameOut.snoc {mp : List Bool} {P : List DCell} {x : DCell} {b : Bool} {P'' : List DCell} (hmp : mp.length = P.length)
+    (h : SameOut (mp ++ [b]) (P ++ [x]) P'') :
+    ∃ P' x', P'' = P' ++ [x'] ∧ SameOut mp P P' ∧ (b = false → x' = x) := by
+  obtain ⟨hl, hp⟩ := h
+  have hl' : P''.length = P.length + 1 := by simpa using hl
+  have hne : P'' ≠ [] := by intro e; rw [e] at hl'; simp at hl'
+  refine ⟨P''.dropLast, P''.getLast hne, (List.dropLast_concat_getLast hne).symm, ⟨by simp [hl'], ?_⟩, ?_⟩
+  · intro i hi
+    by_cases hlt : i < P.length
+    · have h1 : (mp ++ [b])[i]? ≠ some true := by
+        rw [List.getElem?_append_left (by omega)]; exact hi
+      have := hp i h1
+      rw [List.getElem?_append_left hlt] at this
+      rw [← this, List.getElem?_dropLast]
+      simp [hl', hlt]
+    · rw [List.getElem?_eq_none (by simp [hl']; omega), List.getElem?_eq_none (by omega)]
+  · intro hb
+    have h1 : (mp ++ [b])[P.length]? ≠ some true := by
+      rw [List.getElem?_append_right (by omega), hmp]; simp [hb]
+    have := hp P.length h1
+    rw [List.getElem?_append_right (Nat.le_refl _)] at this
+    simp only [Nat.sub_self, List.getElem?_cons_zero] at this
+    have h2 : P''[P.length]? = some (P''.getLast hne) := by
+      rw [List.getLast_eq_getElem, List.getElem?_eq_getElem (by omega)]
+      congr 2; omega
+    rw [h2] at this
+    exact Option.some.inj this
+
+/-- The part under work begins with `sk ≥ 1` continuation cells of a glyph whose head is in the
+    finished part, under an image cell (as are all positions since): the loop is not skipping. -/
+def Stale (mp : List Bool) (P : List DCell) (skip sk k : Nat) : Prop :=
+  skip = 0 ∧ 1 ≤ sk ∧ k = sk ∧
+  ∃ (Q : List DCell) (x : VCell) (j : Nat), P = Q ++ x.1 :: List.replicate j DCell.cont ∧ VOk x ∧ x.2 = j + sk ∧
+    ∀ i, Q.length ≤ i → i < P.length → mp[i]? = some true
+
+/-- **Writing a glyph in the stale state**: the hidden head and the continuation cells before the
+    current column become poison (all under image cells), then the write is the ordinary one. -/
+theorem writeRow_staleP (mp : List Bool) (P : List DCell) (sk : Nat) (v : VCell) (vs : List VCell) (w : Nat) (cell : DCell)
+    (hst : Stale mp P 0 sk sk) (hok : ∀ x ∈ v :: vs, VOk x) (hw : 1 ≤ w) (hfit : w ≤ (v :: vs).length) :
+    ∃ Pm, SameOut mp P Pm ∧
+      writeRow (P ++ sRow sk sk (v :: vs)) P.length w cell = Pm ++ cell :: sRow (w - 1) (nextL sk v) vs := by
+  obtain ⟨_, hsk, _, Q, x, j, hP, hx, hx2, hmask⟩ := hst
+  let ys : List VCell := List.replicate j (DCell.poison, 0)
+  have hys : ys.length = j := by simp [ys]
+  have hrow : P ++ sRow sk sk (v :: vs) = Q ++ x.1 :: eRow x.2 (ys ++ v :: vs) := by
+    rw [sRow_diag, hP, hx2, eRow_append_conts j sk ys (v :: vs) hys]; simp
+  have hPl : P.length = Q.length + (1 + j) := by rw [hP]; simp; omega
+  rw [hrow, hPl, writeRow_stale Q x (ys ++ v :: vs) (1 + j) w cell hx (by omega) (by omega) (by simp [hys]; omega)]
+  have hs := sRow_poisons (1 + j) sk (x :: (ys ++ v :: vs)) (by simp [hys]; omega)
+  have e1 : sk + (1 + j) = x.2 + 1 := by omega
+  have e2 : (x :: (ys ++ v :: vs)).drop (1 + j) = v :: vs := by
+    have : 1 + j = j + 1 := by omega
+    rw [this, List.drop_succ_cons, List.drop_left' hys]
+  rw [e1, e2] at hs
+  rw [hs]
+  refine ⟨Q ++ List.replicate (1 + j) DCell.poison, ⟨by rw [hPl]; simp, ?_⟩, ?_⟩
+  · intro i hi
+    by_cases hlt : i < Q.length
+    · rw [List.getElem?_append_left hlt, hP, List.getElem?_append_left hlt]
+    · by_cases hlt2 : i < P.length
+      · exact absurd (hmask i (by omega) hlt2) hi
+      · rw [List.getElem?_eq_none (by simp; omega), List.getElem?_eq_none (by omega)]
+  · have hl2 : (Q ++ List.replicate (1 + j) DCell.poison).length = Q.length + (1 + j) := by simp
+    have := writeRow_sRow (Q ++ List.replicate (1 + j) DCell.poison) sk v vs w cell hok hw hfit
+    rw [hl2] at this
+    rw [← this]; simp
+
 /-! ### The cell loop of one row -/
 
-/-- What one run of the current cell loop over (the rest of) a row achieves. -/
+/-- What one run of the current cell loop over (the rest of) a row achieves: the finished part is
+    still `P` outside the mask, the rest shows the new row outside its image cells. -/
 def CellsPostM (cw : String → Nat) (caps : Caps) (row : Nat) (t0 : Term) (G : List (List DCell)) (R C : Nat)
-    (P : List DCell) (skip : Nat) (ns : List Cell) (res : List Cell × RSt) : Prop :=
-  ∃ X, (run cw t0 res.2.out).grid = G.set row (P ++ X) ∧ Masked cw caps skip ns X ∧
+    (mp : List Bool) (P : List DCell) (skip : Nat) (ns : List Cell) (res : List Cell × RSt) : Prop :=
+  ∃ P' X, (run cw t0 res.2.out).grid = G.set row (P' ++ X) ∧ SameOut mp P P' ∧ Masked cw caps skip ns X ∧
   (run cw t0 res.2.out).rows = R ∧ (run cw t0 res.2.out).cols = C ∧
   (run cw t0 res.2.out).bad = none ∧ (run cw t0 res.2.out).pen = shown caps res.2.pen ∧
   (run cw t0 res.2.out).link = res.2.pen.link ∧ (run cw t0 res.2.out).linkParams = lpOf res.2.pen
 
-theorem postM_nil (cw : String → Nat) (caps : Caps) (row : Nat) (t0 : Term) (P : List DCell) (skip : Nat)
+theorem postM_nil (cw : String → Nat) (caps : Caps) (row : Nat) (t0 : Term) (mp : List Bool) (P : List DCell) (skip : Nat)
     (st : RSt) (pos : Nat) (hg : (run cw t0 st.out).grid[row]? = some P)
     (hinv : TInv caps (run cw t0 st.out) st row pos) :
-    CellsPostM cw caps row t0 (run cw t0 st.out).grid (run cw t0 st.out).rows (run cw t0 st.out).cols P skip []
+    CellsPostM cw caps row t0 (run cw t0 st.out).grid (run cw t0 st.out).rows (run cw t0 st.out).cols mp P skip []
       ([], st) := by
-  refine ⟨[], ?_, ?_, rfl, rfl, hinv.bad, hinv.pen, hinv.link, hinv.lp⟩
+  refine ⟨P, [], ?_, SameOut.refl mp P, ?_, rfl, rfl, hinv.bad, hinv.pen, hinv.link, hinv.lp⟩
   · rw [List.append_nil, set_self _ _ _ hg]
   · cases skip <;> rfl
 
+/-- One more position: the loop continued from the finished part `Pm ++ [x]` (with `Pm` = `P` outside
+    the mask); `b` says whether position `|P|` is under an image cell. -/
 theorem postM_cons (cw : String → Nat) (caps : Caps) (row : Nat) (t0 : Term) (G G' : List (List DCell)) (R C : Nat)
-    (P : List DCell) (x : DCell) (skip skip' : Nat) (n c : Cell) (ns : List Cell) (res : List Cell × RSt)
-    (hG : ∀ Y, G'.set row Y = G.set row Y)
-    (hM : ∀ X, Masked cw caps skip' ns X → Masked cw caps skip (n :: ns) (x :: X))
-    (h : CellsPostM cw caps row t0 G' R C (P ++ [x]) skip' ns res) :
-    CellsPostM cw caps row t0 G R C P skip (n :: ns) (c :: res.1, res.2) := by
-  obtain ⟨X, h1, hm, h2, h3, h4, h5, h6, h7⟩ := h
-  refine ⟨x :: X, ?_, hM X hm, h2, h3, h4, h5, h6, h7⟩
-  rw [h1, hG]; simp
+    (mp : List Bool) (P Pm : List DCell) (x : DCell) (b : Bool) (skip skip' : Nat) (n c : Cell) (ns : List Cell)
+    (res : List Cell × RSt) (hmp : mp.length = P.length)
+    (hG : ∀ Y, G'.set row Y = G.set row Y) (hPm : SameOut mp P Pm)
+    (hM : ∀ x' X, (b = false → x' = x) → Masked cw caps skip' ns X → Masked cw caps skip (n :: ns) (x' :: X))
+    (h : CellsPostM cw caps row t0 G' R C (mp ++ [b]) (Pm ++ [x]) skip' ns res) :
+    CellsPostM cw caps row t0 G R C mp P skip (n :: ns) (c :: res.1, res.2) := by
+  obtain ⟨P'', X, h1, hs, hm, h2, h3, h4, h5, h6, h7⟩ := h
+  obtain ⟨P', x', e, hs', hx'⟩ := SameOut.snoc (hmp.trans hPm.1.symm) hs
+  refine ⟨P', x' :: X, ?_, hPm.trans hs', hM x' X hx' hm, h2, h3, h4, h5, h6, h7⟩
+  rw [h1, hG, e]; simp
+
+theorem sRow_stale_head (sk : Nat) (v : VCell) (vs : List VCell) :
+    sRow (sk + 1) (sk + 1) (v :: vs) = DCell.cont :: sRow sk sk vs := by
+  simp [sRow, nextL]
 
 theorem renderCellsS_display (cw : String → Nat) (caps : Caps) (refresh : Bool) (row : Nat) (hsp : cw "20" = 1)
     (t0 : Term) :
     ∀ (ns ls : List Cell) (col skip : Nat) (track : Bool) (dirty : Nat) (st : RSt) (V : List VCell) (k : Nat)
-      (P : List DCell) (t : Term), run cw t0 st.out = t →
+      (P : List DCell) (t : Term) (mp : List Bool) (sk : Nat), run cw t0 st.out = t →
       ns.length = ls.length → V.length = ns.length → (∀ v ∈ V, VOk v) →
-      t.grid[row]? = some (P ++ sRow skip k V) → P.length = col → col + ns.length = t.cols → row < t.rows →
+      t.grid[row]? = some (P ++ sRow sk k V) → P.length = col → mp.length = col → col + ns.length = t.cols → row < t.rows →
+      (sk = skip ∨ Stale mp P skip sk k) →
       (refresh = false → RelV cw caps V ls ∧ (skip < k → col + k ≤ dirty) ∧ (track = false → 0 < skip → k = skip)) →
-      ImgNarrow k V ns →
       skip ≤ ns.length → (∀ c ∈ ns, 0 ≤ c.w ∧ WidthOk cw caps c) →
       TInv caps t st row (col + skip) →
-      CellsPostM cw caps row t0 t.grid t.rows t.cols P skip ns
+      CellsPostM cw caps row t0 t.grid t.rows t.cols mp P skip ns
         (renderCellsS cw caps refresh row col skip track dirty ns ls st) := by
   intro ns
   induction ns with
   | nil =>
-    intro ls col skip track dirty st V k P t ht hl hV hok hg hP hcols hr href himg hfit hcells hinv
+    intro ls col skip track dirty st V k P t mp sk ht hl hV hok hg hP hmp hcols hr hB href hfit hcells hinv
     have hV0 : V = [] := by simpa using hV
     subst hV0
-    have hs : sRow skip k [] = [] := by cases skip <;> cases k <;> rfl
+    have hs : sRow sk k [] = [] := by cases sk <;> cases k <;> rfl
     rw [hs, List.append_nil] at hg
     subst ht
     simp only [renderCellsS]
-    exact postM_nil cw caps row t0 P skip st _ hg hinv
+    exact postM_nil cw caps row t0 mp P skip st _ hg hinv
   | cons n ns ih =>
-    intro ls col skip track dirty st V k P t ht hl hV hok hg hP hcols hr href himg hfit hcells hinv
+    intro ls col skip track dirty st V k P t mp sk ht hl hV hok hg hP hmp hcols hr hB href hfit hcells hinv
+    have hmpP : mp.length = P.length := by rw [hmp, hP]
     cases ls with
     | nil => simp at hl
     | cons l ls =>
@@ -190,16 +306,20 @@ theorem renderCellsS_display (cw : String → Nat) (caps : Caps) (refresh : Bool
         have hV' : vs.length = ns.length := by simpa using hV
         have hok' : ∀ x ∈ vs, VOk x := fun x hx => hok x (by simp [hx])
         have hcells' : ∀ c ∈ ns, 0 ≤ c.w ∧ WidthOk cw caps c := fun c hc => hcells c (by simp [hc])
-        have himg' : ImgNarrow (nextL k v) vs ns := imgNarrow_next k v vs n ns himg
         cases skip with
         | succ skip =>
+          have hsk : sk = skip + 1 := by
+            rcases hB with h | h
+            · exact h
+            · exact absurd h.1 (by omega)
+          subst hsk
           simp only [renderCellsS]
-          apply postM_cons cw caps row t0 t.grid t.grid _ _ P DCell.cont (skip + 1) skip n ({} : Cell) ns _ (fun _ => rfl)
-            (fun X hX => ⟨rfl, hX⟩)
+          apply postM_cons cw caps row t0 t.grid t.grid _ _ mp P P DCell.cont false (skip + 1) skip n ({} : Cell) ns _ hmpP
+            (fun _ => rfl) (SameOut.refl mp P) (fun x' X hx hX => ⟨hx rfl, hX⟩)
           have hg' : t.grid[row]? = some ((P ++ [DCell.cont]) ++ sRow skip (nextL k v) vs) := by
             rw [hg]; simp [sRow]
-          refine ih ls (col + 1) skip track _ st vs (nextL k v) (P ++ [DCell.cont]) t ht hl' hV' hok' hg'
-            (by simp [hP]) (by simp at hcols; omega) hr ?_ himg' (by simp at hfit; omega) hcells' ?_
+          refine ih ls (col + 1) skip track _ st vs (nextL k v) (P ++ [DCell.cont]) t (mp ++ [false]) skip ht hl' hV' hok' hg'
+            (by simp [hP]) (by simp [hmp]) (by simp at hcols; omega) hr (Or.inl rfl) ?_ (by simp at hfit; omega) hcells' ?_
           · intro hrf
             obtain ⟨e1, e2, e3⟩ := href hrf
             have hv2 : v.2 = advance cw l := relV_v2 cw caps v l e1.1
@@ -230,43 +350,82 @@ theorem renderCellsS_display (cw : String → Nat) (caps : Caps) (refresh : Bool
           by_cases hsx : n.sixel = true
           · -- an image cell: nothing is written, the position keeps what the terminal shows
             rw [renderCellsS_sixel_eq cw caps refresh row col track dirty n l ns ls st hsx]
-            have hx : ∃ x, sRow 0 k (v :: vs) = x :: sRow 0 (nextL k v) vs := by
-              cases k with
-              | succ k => exact ⟨DCell.poison, by simp [sRow, nextL]⟩
-              | zero =>
-                have hv0 : v.2 = 0 := himg.1 hsx
-                exact ⟨v.1, by simp [sRow, nextL, hv0, sRow_zero_zero]⟩
-            obtain ⟨x, hx⟩ := hx
-            apply postM_cons cw caps row t0 t.grid t.grid _ _ P x 0 0 n n ns _ (fun _ => rfl)
-              (fun X hX => by simp only [Masked, hsx, if_true]; exact hX)
-            have hg' : t.grid[row]? = some ((P ++ [x]) ++ sRow 0 (nextL k v) vs) := by
+            -- what the position shows and how the part under work continues
+            have hx : ∃ x sk', sRow sk k (v :: vs) = x :: sRow sk' (nextL k v) vs ∧
+                (sk' = 0 ∨ Stale (mp ++ [true]) (P ++ [x]) 0 sk' (nextL k v)) ∧
+                (refresh = false → 0 < nextL k v → col + 1 + nextL k v ≤ (if col + advance cw l + 1 > dirty then col + advance cw l + 1 else dirty)) := by
+              rcases hB with hsk | ⟨_, hsk1, hks, Q, x, j, hPq, hxok, hx2, hmask⟩
+              · subst hsk
+                cases k with
+                | succ k =>
+                  refine ⟨DCell.poison, 0, by simp [sRow, nextL], Or.inl rfl, ?_⟩
+                  intro hrf hpos
+                  have := (href hrf).2.1 (by omega)
+                  simp only [nextL_succ] at hpos ⊢
+                  split <;> omega
+                | zero =>
+                  by_cases hv0 : v.2 = 0
+                  · refine ⟨v.1, 0, by simp [sRow, nextL, hv0, sRow_zero_zero], Or.inl rfl, ?_⟩
+                    intro _ hpos; simp [nextL, hv0] at hpos
+                  · -- the head of a wide glyph comes under the image: stale state
+                    refine ⟨v.1, v.2, by simp [sRow, nextL, sRow_diag], Or.inr ⟨rfl, by omega, by simp [nextL], P, v, 0, by simp, hok v (by simp), by simp, ?_⟩, ?_⟩
+                    · intro i h1 h2
+                      have : i = P.length := by simp at h2; omega
+                      rw [this, List.getElem?_append_right (by omega), hmpP]; simp
+                    · intro hrf _
+                      have hv2 : v.2 = advance cw l := relV_v2 cw caps v l (href hrf).1.1
+                      simp only [nextL_zero, hv2]
+                      split <;> omega
+              · subst hks
+                obtain ⟨s, rfl⟩ : ∃ s, k = s + 1 := ⟨k - 1, by omega⟩
+                refine ⟨DCell.cont, s, by rw [sRow_stale_head]; simp [nextL], ?_, ?_⟩
+                · by_cases hs0 : s = 0
+                  · exact Or.inl hs0
+                  · refine Or.inr ⟨rfl, by omega, by simp [nextL], Q, x, j + 1, ?_, hxok, by omega, ?_⟩
+                    · rw [hPq]; simp [List.replicate_succ']
+                    · intro i h1 h2
+                      by_cases hi : i < P.length
+                      · rw [List.getElem?_append_left (by omega)]; exact hmask i h1 hi
+                      · have : i = P.length := by simp at h2; omega
+                        rw [this, List.getElem?_append_right (by omega), hmpP]; simp
+                · intro hrf hpos
+                  have := (href hrf).2.1 (by omega)
+                  simp only [nextL_succ] at hpos ⊢
+                  split <;> omega
+            obtain ⟨x, sk', hx, hst', hdirty⟩ := hx
+            apply postM_cons cw caps row t0 t.grid t.grid _ _ mp P P x true 0 0 n n ns _ hmpP (fun _ => rfl) (SameOut.refl mp P)
+              (fun x' X _ hX => by simp only [Masked, hsx, if_true]; exact hX)
+            have hg' : t.grid[row]? = some ((P ++ [x]) ++ sRow sk' (nextL k v) vs) := by
               rw [hg, hx]; simp
-            refine ih ls (col + 1) 0 false _ { st with reposition := true } vs (nextL k v) (P ++ [x]) t ht hl' hV' hok' hg'
-              (by simp [hP]) (by simp at hcols; omega) hr ?_ himg' (Nat.zero_le _) hcells'
+            refine ih ls (col + 1) 0 false _ { st with reposition := true } vs (nextL k v) (P ++ [x]) t (mp ++ [true]) sk' ht hl' hV' hok' hg'
+              (by simp [hP]) (by simp [hmp]) (by simp at hcols; omega) hr hst' ?_ (Nat.zero_le _) hcells'
               ⟨hinv.bad, hinv.pen, hinv.link, hinv.lp, by intro h; simp at h⟩
             intro hrf
-            obtain ⟨e1, e2, _⟩ := href hrf
-            refine ⟨e1.2, ?_, fun _ h => absurd h (Nat.lt_irrefl 0)⟩
-            intro hlt
-            cases k with
-            | zero =>
-              have hv0 : v.2 = 0 := himg.1 hsx
-              simp [nextL, hv0] at hlt
-            | succ k =>
-              have := e2 (by omega)
-              simp only [nextL_succ] at hlt ⊢
-              split <;> omega
+            obtain ⟨e1, _, _⟩ := href hrf
+            exact ⟨e1.2, fun hlt => hdirty hrf hlt, fun _ h => absurd h (Nat.lt_irrefl 0)⟩
           · have hsx' : n.sixel = false := by simpa using hsx
             obtain ⟨hw0, hwok⟩ := clipCell_ok cw caps hsp (ns.length + 1) n (hcells n (by simp))
             have hadv : advance cw (clipCell cw (ns.length + 1) n) < ns.length + 1 :=
               clipCell_adv cw (ns.length + 1) n (by omega)
             generalize hm : clipCell cw (ns.length + 1) n = m at hw0 hwok hadv
-            have hMm : ∀ X, Masked cw caps (advance cw m) ns X → Masked cw caps 0 (n :: ns) (expectedCell cw caps m :: X) := by
-              intro X hX
+            have hMm : ∀ x' X, ((false : Bool) = false → x' = expectedCell cw caps m) → Masked cw caps (advance cw m) ns X →
+                Masked cw caps 0 (n :: ns) (x' :: X) := by
+              intro x' X hx' hX
               simp only [Masked, hsx', Bool.false_eq_true, if_false, hm]
-              exact ⟨trivial, hX⟩
+              exact ⟨hx' rfl, hX⟩
+            -- the part under work as an ordinary one (stale state: after poisoning the hidden head)
+            have hnoB : (m = l ∧ ¬ refresh ∧ col ≥ dirty) → sk = 0 := by
+              intro hc
+              rcases hB with h | ⟨_, h1, hks, _⟩
+              · exact h
+              · exfalso
+                have hrf' : refresh = false := by simpa using hc.2.1
+                have := (href hrf').2.1 (by omega)
+                omega
             by_cases hc : m = l ∧ ¬ refresh ∧ col ≥ dirty
             · rw [renderCellsS_equal_eq cw caps refresh row col track dirty n l ns ls st hsx' (by rw [hm]; exact hc), hm]
+              have hsk0 := hnoB hc
+              subst hsk0
               obtain ⟨hnl, hrf, hcd⟩ := hc
               have hrf' : refresh = false := by simpa using hrf
               obtain ⟨e1, e2, e3⟩ := href hrf'
@@ -281,30 +440,43 @@ theorem renderCellsS_display (cw : String → Nat) (caps : Caps) (refresh : Bool
                 · exact h
                 · rw [hls] at h; cases h
               subst hnl
-              apply postM_cons cw caps row t0 t.grid t.grid _ _ P (expectedCell cw caps m) 0 (advance cw m) n m ns _
-                (fun _ => rfl) hMm
+              apply postM_cons cw caps row t0 t.grid t.grid _ _ mp P P (expectedCell cw caps m) false 0 (advance cw m) n m ns _ hmpP
+                (fun _ => rfl) (SameOut.refl mp P) hMm
               have hg' : t.grid[row]? = some ((P ++ [expectedCell cw caps m]) ++ sRow (advance cw m) (advance cw m) vs) := by
                 rw [hg, ev]; simp [sRow, phi, sRow_diag]
-              have himg2 : ImgNarrow (advance cw m) vs ns := by
-                have := himg'
-                rw [ev] at this
-                simpa [nextL, phi] using this
               exact ih ls (col + 1) (advance cw m) false dirty { st with reposition := true } vs (advance cw m)
-                (P ++ [expectedCell cw caps m]) t ht hl' hV' hok' hg' (by simp [hP]) (by simp at hcols; omega) hr
-                (fun _ => ⟨e1.2, by omega, fun _ _ => rfl⟩) himg2 (by omega) hcells'
+                (P ++ [expectedCell cw caps m]) t (mp ++ [false]) (advance cw m) ht hl' hV' hok' hg' (by simp [hP]) (by simp [hmp])
+                (by simp at hcols; omega) hr (Or.inl rfl)
+                (fun _ => ⟨e1.2, by omega, fun _ _ => rfl⟩) (by omega) hcells'
                 ⟨hinv.bad, hinv.pen, hinv.link, hinv.lp, by intro h; simp at h⟩
             · rw [renderCellsS_write_eq cw caps refresh row col track dirty n l ns ls st hsx' (by rw [hm]; exact hc), hm]
               have hfitw : advance cw m + 1 ≤ (v :: vs).length := by
                 simp only [List.length_cons, hV']; omega
-              have hcw := cell_write cw caps hsp t st row col m P k v vs (by simpa using hinv) hr
-                (by simp only [List.length_cons, hV'] at hcols ⊢; omega) hg hP hok hfitw hw0 hwok
+              have hcw := cell_write_gen cw caps hsp t st row col m (P ++ sRow sk k (v :: vs)) (by simpa using hinv) hr
+                (by simp at hcols; omega) hg hw0 hwok
+              -- the write on the row
+              have hwr : ∃ Pm, SameOut mp P Pm ∧
+                  writeRow (P ++ sRow sk k (v :: vs)) col (advance cw m + 1) (expectedCell cw caps m) =
+                    Pm ++ expectedCell cw caps m :: sRow (advance cw m) (nextL k v) vs := by
+                rcases hB with hsk | hst
+                · subst hsk
+                  refine ⟨P, SameOut.refl mp P, ?_⟩
+                  rw [← hP, writeRow_sRow P k v vs _ _ hok (by omega) hfitw]; simp
+                · have hks : k = sk := hst.2.2.1
+                  subst hks
+                  obtain ⟨Pm, h1, h2⟩ := writeRow_staleP mp P k v vs (advance cw m + 1) (expectedCell cw caps m) hst hok (by omega) hfitw
+                  exact ⟨Pm, h1, by rw [← hP, h2]; simp⟩
+              obtain ⟨Pm, hPm, hwr⟩ := hwr
               generalize hst' : (RSt.mk false m.style (st.out ++ cellToks cw caps st row col m)) = st'
               have hcw' : (run cw t (cellToks cw caps st row col m)).grid
-                    = t.grid.set row (P ++ expectedCell cw caps m :: sRow (advance cw m) (nextL k v) vs) ∧
+                    = t.grid.set row (Pm ++ expectedCell cw caps m :: sRow (advance cw m) (nextL k v) vs) ∧
                   (run cw t (cellToks cw caps st row col m)).rows = t.rows ∧
                   (run cw t (cellToks cw caps st row col m)).cols = t.cols ∧
                   TInv caps (run cw t (cellToks cw caps st row col m)) { reposition := false, pen := m.style, out := st'.out }
-                    row (col + 1 + advance cw m) := hcw st'.out
+                    row (col + 1 + advance cw m) := by
+                have := hcw st'.out
+                rw [hwr] at this
+                exact this
               generalize ht' : run cw t (cellToks cw caps st row col m) = t' at hcw'
               obtain ⟨g1, r1, c1, inv1⟩ := hcw'
               have hrun : run cw t0 st'.out = t' := by
@@ -312,7 +484,7 @@ theorem renderCellsS_display (cw : String → Nat) (caps : Caps) (refresh : Bool
               have hst'e : ({ reposition := false, pen := m.style, out := st'.out } : RSt) = st' := by
                 rw [← hst']
               rw [hst'e] at inv1
-              have hg' : t'.grid[row]? = some ((P ++ [expectedCell cw caps m]) ++ sRow (advance cw m) (nextL k v) vs) := by
+              have hg' : t'.grid[row]? = some ((Pm ++ [expectedCell cw caps m]) ++ sRow (advance cw m) (nextL k v) vs) := by
                 rw [g1, List.getElem?_set]
                 have : row < t.grid.length := by
                   rcases Nat.lt_or_ge row t.grid.length with h' | h'
@@ -321,10 +493,10 @@ theorem renderCellsS_display (cw : String → Nat) (caps : Caps) (refresh : Bool
                 simp [this]
               have hpost := ih ls (col + 1) (advance cw m) true
                 (if col + advance cw l + 1 > dirty then col + advance cw l + 1 else dirty) st' vs (nextL k v)
-                (P ++ [expectedCell cw caps m]) t' hrun hl' hV' hok' hg' (by simp [hP])
-                (by rw [c1]; simp at hcols; omega) (by rw [r1]; exact hr) ?_ himg' (by omega) hcells' inv1
+                (Pm ++ [expectedCell cw caps m]) t' (mp ++ [false]) (advance cw m) hrun hl' hV' hok' hg' (by simp [hPm.1, hP]) (by simp [hmp])
+                (by rw [c1]; simp at hcols; omega) (by rw [r1]; exact hr) (Or.inl rfl) ?_ (by omega) hcells' inv1
               · rw [r1, c1] at hpost
-                refine postM_cons cw caps row t0 t.grid t'.grid _ _ P (expectedCell cw caps m) 0 (advance cw m) n m ns _ ?_ hMm hpost
+                refine postM_cons cw caps row t0 t.grid t'.grid _ _ mp P Pm (expectedCell cw caps m) false 0 (advance cw m) n m ns _ hmpP ?_ hPm hMm hpost
                 intro Y; rw [g1, List.set_set]
               · intro hrf
                 obtain ⟨e1, e2, e3⟩ := href hrf
@@ -340,16 +512,16 @@ theorem renderCellsS_display (cw : String → Nat) (caps : Caps) (refresh : Bool
                   have := e2 (by omega)
                   split <;> omega
 
+
 /-! ### All rows -/
 
-/-- Row by row: the terminal row is well formed (a parse `V`), shows the previous frame's row outside
-    that row's image cells (unless the frame is a refresh), and no image cell of the new row sits on
-    the head of a wide glyph of the terminal row. -/
+/-- Row by row: the terminal row is well formed (a parse `V`) and shows the previous frame's row
+    outside that row's image cells (unless the frame is a refresh). -/
 def RowsOkM (cw : String → Nat) (caps : Caps) (refresh : Bool) (C : Nat) : List (List DCell) → Grid → Grid → Prop
   | [], [], [] => True
-  | r :: rs, l :: ls, n :: ns =>
-      (∃ V : List VCell, r = eRow 0 V ∧ V.length = C ∧ (∀ v ∈ V, VOk v) ∧ (refresh = false → RelV cw caps V l) ∧
-        ImgNarrow 0 V n) ∧ RowsOkM cw caps refresh C rs ls ns
+  | r :: rs, l :: ls, _ :: ns =>
+      (∃ V : List VCell, r = eRow 0 V ∧ V.length = C ∧ (∀ v ∈ V, VOk v) ∧ (refresh = false → RelV cw caps V l)) ∧
+        RowsOkM cw caps refresh C rs ls ns
   | _, _, _ => False
 
 def MaskedRows (cw : String → Nat) (caps : Caps) : Grid → List (List DCell) → Prop
@@ -395,22 +567,25 @@ theorem renderRowsS_display (cw : String → Nat) (caps : Caps) (refresh : Bool)
       cases Rm with
       | nil => simp [RowsOkM] at hok
       | cons r Rm =>
-        obtain ⟨⟨V, hrV, hVlen, hVok, hVref, hVimg⟩, hok'⟩ := hok
+        obtain ⟨⟨V, hrV, hVlen, hVok, hVref⟩, hok'⟩ := hok
         have hnl : n.length = t.cols := hn n (by simp)
         have hll : l.length = t.cols := hlc l (by simp)
         have hgrow : t.grid[row]? = some ([] ++ sRow 0 0 V) := by
           rw [hg, ← hD, List.getElem?_append_right (Nat.le_refl _)]
           simp [hrV, sRow_zero_zero]
-        have hc := renderCellsS_display cw caps refresh row hsp t0 n l 0 0 false 0 { st with reposition := true } V 0 [] t
-          ht (by rw [hnl, hll]) (by rw [hVlen, hnl]) hVok hgrow rfl (by rw [hnl]; omega)
-          (by simp at hrows; omega)
+        have hc := renderCellsS_display cw caps refresh row hsp t0 n l 0 0 false 0 { st with reposition := true } V 0 [] t [] 0
+          ht (by rw [hnl, hll]) (by rw [hVlen, hnl]) hVok hgrow rfl rfl (by rw [hnl]; omega)
+          (by simp at hrows; omega) (Or.inl rfl)
           (fun h => ⟨hVref h, fun h' => absurd h' (Nat.lt_irrefl 0), fun _ h' => absurd h' (Nat.lt_irrefl 0)⟩)
-          hVimg (Nat.zero_le _) (hcells n (by simp))
+          (Nat.zero_le _) (hcells n (by simp))
           ⟨hbad, hpen, hlink, hlp, by intro h; simp at h⟩
         simp only [renderRowsS]
         generalize renderCellsS cw caps refresh row 0 0 false 0 n l { st with reposition := true } = rc at hc
         obtain ⟨l', st'⟩ := rc
-        obtain ⟨X, g1, m1, r1, c1, b1, p1, k1, q1⟩ := hc
+        obtain ⟨P', X, g1, s1, m1, r1, c1, b1, p1, k1, q1⟩ := hc
+        have hP' : P' = [] := List.eq_nil_of_length_eq_zero (by simpa using s1.1)
+        subst hP'
+        simp only [List.nil_append] at g1
         simp only at g1 r1 c1 b1 p1 k1 q1
         have hg1 : (run cw t0 st'.out).grid = (D ++ [X]) ++ Rm := by
           rw [g1, hg, ← hD]; simp
